@@ -320,31 +320,24 @@ theorem altSteps_exact {cx : Ctx} {rule : Rule} {ntIdx : Nat} :
 
 theorem ruleStep_exact {cx : Ctx} {rule : Rule} {st st' : XSt} (hi : NtsInv none st) (hx : XExact none st)
     (hav : RuleAvoids cx rule) (hne : rule.alts ≠ []) (h : ruleStep cx rule st = .ok st') : XExact none st' := by
-  unfold ruleStep at h
-  split at h
-  · cases h
-  · split at h
-    · cases h
-    · split at h
-      · rename_i nt hf
-        exact altSteps_exact (pend := none) hi hx ⟨nt, hf, rfl⟩ hav hne h
-      · rename_i hf
-        have hi' : NtsInv (some (rule.name, st.nextNt)) ({ st with nextNt := st.nextNt + 1 } : XSt) := by
-          refine ⟨hi.names, hi.idxs, fun nt hnt => Nat.lt_succ_of_lt (hi.bound nt hnt), hi.prodsB, ?_⟩
-          refine ⟨?_, Nat.lt_succ_self _, findNt_none hf, ?_⟩
-          · show st.nts.length + 1 = st.nextNt + 1
-            rw [hi.pendOk]
-          · intro hm
-            obtain ⟨x, hxm, e⟩ := List.mem_map.mp hm
-            have := hi.bound x hxm
-            omega
-        have hx' : XExact (some (rule.name, st.nextNt)) ({ st with nextNt := st.nextNt + 1 } : XSt) := by
-          refine ⟨hx.exact, fun p hp => Nat.lt_succ_of_lt (hx.owned p hp), ?_⟩
-          intro n r e p hp
-          cases e
-          have := hx.owned p hp
-          omega
-        exact altSteps_exact (pend := some (rule.name, st.nextNt)) hi' hx' rfl hav hne h
+  rcases ruleStep_ok h with ⟨nt, hf, h⟩ | ⟨hf, h⟩
+  · exact altSteps_exact (pend := none) hi hx ⟨nt, hf, rfl⟩ hav hne h
+  · have hi' : NtsInv (some (rule.name, st.nextNt)) ({ st with nextNt := st.nextNt + 1 } : XSt) := by
+      refine ⟨hi.names, hi.idxs, fun nt hnt => Nat.lt_succ_of_lt (hi.bound nt hnt), hi.prodsB, ?_⟩
+      refine ⟨?_, Nat.lt_succ_self _, findNt_none hf, ?_⟩
+      · show st.nts.length + 1 = st.nextNt + 1
+        rw [hi.pendOk]
+      · intro hm
+        obtain ⟨x, hxm, e⟩ := List.mem_map.mp hm
+        have := hi.bound x hxm
+        omega
+    have hx' : XExact (some (rule.name, st.nextNt)) ({ st with nextNt := st.nextNt + 1 } : XSt) := by
+      refine ⟨hx.exact, fun p hp => Nat.lt_succ_of_lt (hx.owned p hp), ?_⟩
+      intro n r e p hp
+      cases e
+      have := hx.owned p hp
+      omega
+    exact altSteps_exact (pend := some (rule.name, st.nextNt)) hi' hx' rfl hav hne h
 
 theorem ruleSteps_exact {cx : Ctx} :
     ∀ {rules : List Rule} {st st' : XSt}, NtsInv none st → XExact none st →
